@@ -565,6 +565,7 @@ def finish(mod, prop_id, tier, seed, results, wall, xhair=None):
             forks=int(agg.get("forks", 0)),
             inconclusive_paths=degraded,
             concretisations=int(agg.get("concretisations", 0)),
+            large_models_run_on_impl=int(agg.get("big_models", 0)),
             reached=reached,
             functions_encoded=sorted(funcs),
             bounds=getattr(mod, "bounds", lambda t: "")(tier),
@@ -576,7 +577,9 @@ def finish(mod, prop_id, tier, seed, results, wall, xhair=None):
                          "shared by several paths is counted once per path); paths = feasible symbolic paths, each ended with all its "
                          "obligations decided by z3 for every value of the symbolic inputs; traces_validated_against_impl = paths whose "
                          "observed values were reproduced by a concrete re-run of the un-instrumented library on a model of the path "
-                         "condition; functions_encoded = job_shop_lib functions executed under the engine (sys.monitoring)"),
+                         "condition; large_models_run_on_impl = additional models of path conditions in which the solver was asked for "
+                         "inputs >= 2**24+1 (all / only the first / only the last input), each run concretely with all oracles (first 4 "
+                         "paths of every sub-space and every 8th after); functions_encoded = job_shop_lib functions executed under the engine (sys.monitoring)"),
             engine="symx (operator-overloading symbolic execution of the imported /repo modules, z3 %s)"
                    % _z3_version(),
         ),
